@@ -347,4 +347,118 @@ theorem phiKeys_grid (G : Grid α) (ht : 0 < G.nt) (hm : 0 < G.nmu) (hp : 0 < G.
     intro im _
     rw [inner, if_neg (by omega)]
 
+theorem addLast_returns (bins : List α) (f l : Step α) : ∃ r, addLast bins (some f) (some l) = .ok r := by
+  unfold addLast
+  split
+  · split
+    · exact ⟨_, rfl⟩
+    · exact ⟨_, rfl⟩
+  · exact ⟨_, rfl⟩
+
+/-- the three blocks `add_last_bins` looks at, counted from the end of a printed grid -/
+theorem negBlock_grid (G : Grid α) (a b c : Nat) (ha : G.nt = a + 1) (hb : G.nmu = b + 1) (hc : G.nphi = c + 1) :
+    negBlock G.blocks 1 = some (G.blk a b c) ∧ negBlock G.blocks G.nphi = some (G.blk a b 0) ∧
+    negBlock G.blocks (G.nphi * G.nmu) = some (G.blk a 0 0) := by
+  have hM : G.nmu * G.nphi = b * G.nphi + G.nphi := by rw [hb, Nat.succ_mul]
+  have hN : G.nt * (G.nmu * G.nphi) = a * (G.nmu * G.nphi) + G.nmu * G.nphi := by rw [ha, Nat.succ_mul]
+  have hlen := blocks_length G
+  have hpos : 0 < G.nmu * G.nphi := Nat.mul_pos (by omega) (by omega)
+  unfold negBlock
+  rw [hlen]
+  refine ⟨?_, ?_, ?_⟩
+  · rw [if_neg (by rw [hN]; omega)]
+    have := blocks_get G a b c (by omega) (by omega) (by omega)
+    have e : G.nt * (G.nmu * G.nphi) - 1 = a * (G.nmu * G.nphi) + (b * G.nphi + c) := by rw [hN, hM]; omega
+    rw [e]; exact this
+  · rw [if_neg (by rw [hN, hM]; omega)]
+    have := blocks_get G a b 0 (by omega) (by omega) (by omega)
+    have e : G.nt * (G.nmu * G.nphi) - G.nphi = a * (G.nmu * G.nphi) + (b * G.nphi + 0) := by rw [hN, hM]; omega
+    rw [e]; exact this
+  · rw [if_neg (by rw [hN, Nat.mul_comm G.nphi G.nmu]; omega)]
+    have := blocks_get G a 0 0 (by omega) (by omega) (by omega)
+    have e : G.nt * (G.nmu * G.nphi) - G.nphi * G.nmu = a * (G.nmu * G.nphi) + (0 * G.nphi + 0) := by
+      rw [hN, Nat.mul_comm G.nphi G.nmu]; omega
+    rw [e]; exact this
+
+/-- **`convert` returns on a printed grid**: every block has at most as many rows as the first one, the last block has
+a row, the rows of the first block continue each other -/
+theorem convert_grid_returns (G : Grid α) (ht : 0 < G.nt) (hm : 0 < G.nmu) (hp : 0 < G.nphi)
+    (hrows : ∀ it im ip, it < G.nt → im < G.nmu → ip < G.nphi → (G.rows it im ip).length ≤ (G.rows 0 0 0).length)
+    (hlast : G.rows (G.nt - 1) (G.nmu - 1) (G.nphi - 1) ≠ [])
+    (hc : RowsContig (G.rows 0 0 0) 0 (G.rows 0 0 0)) :
+    ∃ sp, convert G.blocks = .ok sp := by
+  obtain ⟨a, ha⟩ : ∃ a, G.nt = a + 1 := ⟨G.nt - 1, by omega⟩
+  obtain ⟨b, hb⟩ : ∃ b, G.nmu = b + 1 := ⟨G.nmu - 1, by omega⟩
+  obtain ⟨c, hc'⟩ : ∃ c, G.nphi = c + 1 := ⟨G.nphi - 1, by omega⟩
+  obtain ⟨n1, n2, n3⟩ := negBlock_grid G a b c ha hb hc'
+  obtain ⟨bb, hfill⟩ := fill_grid_returns G ht hm hp hrows hc
+  obtain ⟨km, kp⟩ := fill_keybins _ _ _ hfill
+  have hmu : bb.mubins = (List.range G.nmu).map fun im => (G.mstep im).1 := by
+    rw [km]; show [] ++ muKeys (0, 0, 0) G.blocks = _; rw [List.nil_append, muKeys_grid G ht hm hp]
+  have hphi : bb.phibins = (List.range G.nphi).map fun ip => (G.pstep ip).1 := by
+    rw [kp]; show [] ++ phiKeys (0, 0, 0) G.blocks = _; rw [List.nil_append, phiKeys_grid G ht hm hp]
+  have hnm : nmub bb = G.nmu := by
+    unfold nmub; rw [hmu]
+    have : ((List.range G.nmu).map fun im => (G.mstep im).1).isEmpty = false := by
+      rw [hb, List.range_succ]; simp
+    rw [this]; simp
+  have hnp : nphib bb = G.nphi := by
+    unfold nphib; rw [hphi]
+    have : ((List.range G.nphi).map fun ip => (G.pstep ip).1).isEmpty = false := by
+      rw [hc', List.range_succ]; simp
+    rw [this]; simp
+  have hhead : G.blocks.head? = some (G.blk 0 0 0) := by
+    have := blocks_get G 0 0 0 ht hm hp
+    rw [List.head?_eq_getElem?]
+    simpa using this
+  have hlastb : G.blocks.getLast? = some (G.blk a b c) := by
+    rw [List.getLast?_eq_getElem?]
+    have := n1
+    unfold negBlock at this
+    rw [if_neg (by rw [blocks_length, ha, hb, hc']; simp [Nat.succ_mul, Nat.mul_succ])] at this
+    exact this
+  have he : ∃ eb, eOf G.blocks bb = .ok eb := by
+    unfold eOf
+    rw [hlastb]
+    simp only [Option.bind_some]
+    have : (G.blk a b c).rows ≠ [] := by
+      have e1 : a = G.nt - 1 := by omega
+      have e2 : b = G.nmu - 1 := by omega
+      have e3 : c = G.nphi - 1 := by omega
+      rw [e1, e2, e3]; exact hlast
+    obtain ⟨r, hr⟩ : ∃ r, (G.blk a b c).rows.getLast? = some r := ⟨_, List.getLast?_eq_some_getLast this⟩
+    rw [hr]
+    exact ⟨_, rfl⟩
+  have htO : ∃ tb, tOf G.blocks bb = .ok tb := by
+    unfold tOf
+    rw [hhead, hnp, hnm, n3]
+    simp only [Option.bind_some, Grid.blk, and_self, if_true, Option.isSome_some]
+    exact addLast_returns _ _ _
+  have hmO : ∃ mb, mOf G.blocks bb = .ok mb := by
+    unfold mOf
+    rw [hhead, hnp, n2]
+    simp only [Option.bind_some, Grid.blk, if_true, Option.isSome_some]
+    exact addLast_returns _ _ _
+  have hpO : ∃ pb, pOf G.blocks bb = .ok pb := by
+    unfold pOf
+    rw [hhead, n1]
+    simp only [Option.bind_some, Grid.blk, Option.isSome_some, if_true]
+    exact addLast_returns _ _ _
+  obtain ⟨eb, he⟩ := he
+  obtain ⟨tb, htO⟩ := htO
+  obtain ⟨mb, hmO⟩ := hmO
+  obtain ⟨pb, hpO⟩ := hpO
+  rw [convert_eq, nbBins_blocks G ht hm hp]
+  simp only [bind, Except.bind]
+  rw [hfill]
+  simp only []
+  rw [he]
+  simp only []
+  rw [htO]
+  simp only []
+  rw [hmO]
+  simp only []
+  rw [hpO]
+  exact ⟨_, rfl⟩
+
 end T4Spec
